@@ -108,6 +108,15 @@ func bombBytes(spec string) []byte {
 			k /= 3 // a level of this recursion took about a kilobyte of stack: two million levels are the abyss here
 		}
 		s = map[string]string{"classdefs-open": "", "svc-classdefs-open": "C", "cli-classdefs-open": "R"}[kind] + strings.Repeat(`c""{}`, k)
+	case "many-references-to-one-string": // a string of 8 KiB and k references to it (into bytes each one is converted)
+		s = fmt.Sprintf("a%d{s8192\"%s\"%s}", k+1, strings.Repeat("x", 8192), strings.Repeat("r1;", k))
+	case "error-tags": // an error tag whose message is an error tag whose message ...
+		s = strings.Repeat("E", k)
+	case "classdefs-after-an-error": // a class definition with a negative field count, then definitions without end
+		if k >= abyss {
+			k /= 3
+		}
+		s = `c1"A"-1{}` + strings.Repeat(`c""{}`, k)
 	case "wide-list-open": // every level announces ten million elements
 		s = strings.Repeat("a9999999{", k)
 	case "wide-map-open":
@@ -846,7 +855,7 @@ func build(thorough bool) spaces {
 		bomb("svc", "svc-wide-list-open", k)
 		bomb("cli", "cli-wide-list-open", k)
 	}
-	for _, kind := range []string{"list-open", "map-open", "classdefs-open"} {
+	for _, kind := range []string{"list-open", "map-open", "classdefs-open", "error-tags", "classdefs-after-an-error"} {
 		bomb("io", kind, abyss)
 	}
 	bomb("svc", "svc-classdefs-open", abyss)
@@ -854,6 +863,7 @@ func build(thorough bool) spaces {
 	for _, k := range []int{100, 10000} {
 		bomb("io", "classdefs-open", k)
 	}
+	bomb("io", "many-references-to-one-string", 3000)
 	bomb("svc", "svc-list-open", abyss)
 	bomb("cli", "cli-list-open", abyss)
 	for _, k := range depths {
